@@ -192,6 +192,10 @@ pub const CORPUS: &[&str] = &[
     "SELECT id FROM users WHERE city NOT ILIKE 'n%' ORDER BY id",
     "SELECT id, age IN (30) AS one, NOT (age IN (30)) AS none FROM users ORDER BY id",
     "SELECT id, 1e3 AS k, 1.5e-3 AS m, -age AS na, - (age - 3) AS nb, -(-age) AS nn FROM users ORDER BY id",
+    // sibling sub-queries that differ only by a literal below the machine epsilon (content-hashed names must tell them apart)
+    "SELECT a.id FROM (SELECT id FROM users WHERE score > 1e-20) AS a JOIN (SELECT id FROM users WHERE score > 1e-30) AS b ON a.id = b.id ORDER BY a.id",
+    "SELECT id FROM users WHERE score > 1e-20 UNION SELECT id FROM users WHERE score > 0 ORDER BY id",
+    "SELECT a.id, a.t, b.t AS u FROM (SELECT id, score + 1e-17 AS t FROM users) AS a JOIN (SELECT id, score + 1e-19 AS t FROM users) AS b ON a.id = b.id ORDER BY a.id",
     "SELECT id, SUBSTRING(city FROM 1 FOR 1) AS s, POSITION('Y' IN city) AS p FROM users ORDER BY id",
     "SELECT id, TRIM(BOTH 'N' FROM city) AS t, TRIM(LEADING 'N' FROM city) AS tl, TRIM(TRAILING 'Y' FROM city) AS tt FROM users ORDER BY id",
     "SELECT id, -age * 2 AS a, -(age * 2) AS b, pow(-age, 2) AS c, -pow(age, 2) AS d, 2 - -age AS e FROM users ORDER BY id",
